@@ -196,7 +196,10 @@ pub async fn scenario() {
 				raws.push((rt::now_stamp(), ctl.clone()));
 				http_tasks.push(rt::spawn("http-peer", async move {
 					let Ok(mut p) = world::http_handshake(end).await else { return };
-					let msg = format!("{{\"jsonrpc\":\"2.0\",\"id\":{n},\"method\":\"slow\",\"params\":[{n}]}}");
+					// (a handler that would never finish on its own: the slot must come back because the client left, not
+					// because the call happened to end)
+					let method = if rt::chance("aborted_call_never_ends", 1, 2) { "hang" } else { "slow" };
+					let msg = format!("{{\"jsonrpc\":\"2.0\",\"id\":{n},\"method\":\"{method}\",\"params\":[{n}]}}");
 					let _ = tokio::time::timeout(Duration::from_millis(rt::draw_range("abort_ms", 1, 100) as u64), p.post(msg.into_bytes(), Some("application/json"))).await;
 					ctl.reset();
 				}));
